@@ -18,8 +18,8 @@
 (*                                                                         *)
 (* workerCh is not modelled as a queue: a worker is available iff it is    *)
 (* not busy (the order in which idle workers are picked is irrelevant).    *)
-(* Frames are 1..NFrames; Epoch[f] is the stream (local type context) the  *)
-(* frame belongs to; ErrFrame (0 = none) is a frame whose decoding fails.  *)
+(* Frames are 1..par.nframes; Epoch(f) is the stream (local type context)  *)
+(* the frame belongs to; par.err (0 = none) is a frame whose decoding fails.*)
 (*                                                                         *)
 (* TLC explores every interleaving and checks in-order, complete delivery, *)
 (* that each worker decodes with the context of its frame's stream, the    *)
@@ -30,13 +30,19 @@
 (***************************************************************************)
 EXTENDS Integers, Sequences, FiniteSets, TLC, Json
 
-CONSTANTS NFrames,      \* values frames in the input
-          Threads,      \* ReaderOpts.Threads (>= 2: the threaded scanner)
-          QCap,         \* capacity of resultChCh: Threads + 1 (+ 1 in recorded traces, see ZngScannerTrace)
-          EosAfter,     \* set of frames followed by an end-of-stream marker
-          ErrFrame,     \* frame whose decoding fails (0 = none)
+CONSTANTS ParamSet,     \* the parameter records explored by the design check (QuickParams / ThoroughParams)
           AllowCancel,  \* the consumer may call Pull(true) at any time
           Emit          \* print an ORDER line for each complete behaviour
+
+\* A parameter record:
+\*   nframes  values frames in the input
+\*   threads  ReaderOpts.Threads (>= 2: the threaded scanner)
+\*   qcap     capacity of resultChCh: threads + 1 (+ 1 in recorded traces, see ZngScannerTrace)
+\*   eos      set of frames followed by an end-of-stream marker
+\*   err      frame whose decoding fails (0 = none)
+P(n, t, eos, err) == [nframes |-> n, threads |-> t, qcap |-> t + 1, eos |-> eos, err |-> err]
+QuickParams    == {P(5, 3, {2}, 0), P(4, 2, {1, 3}, 0), P(4, 2, {2}, 3)}
+ThoroughParams == QuickParams \cup {P(6, 3, {1, 4}, 0), P(6, 4, {3}, 0), P(5, 3, {2}, 1), P(5, 3, {3}, 5)}
 
 \* The parameters are kept in a variable so that ZngScannerTrace can replay
 \* recorded executions with different parameters in one TLC run; the design
@@ -61,7 +67,6 @@ VARIABLES next,        \* next frame the parser will read
 
 vars == <<par, next, pepoch, parserExit, busy, handed, queue, res, cwait, cstate, cancelled, delivered, doneOrder>>
 
-Params == [nframes |-> NFrames, threads |-> Threads, qcap |-> QCap, eos |-> EosAfter, err |-> ErrFrame]
 Start(p) ==
   /\ par = p
   /\ next = 1 /\ pepoch = 1 /\ parserExit = FALSE
@@ -71,7 +76,7 @@ Start(p) ==
   /\ res = [f \in Frames |-> "none"]
   /\ cwait = -1 /\ cstate = "run" /\ cancelled = FALSE
   /\ delivered = <<>> /\ doneOrder = <<>>
-Init == Start(Params)
+Init == \E p \in ParamSet : Start(p)
 
 \* ----------------------------------------------------------------- parser
 \* s.parser.read() returned values frame `next` (EOS markers before it have
